@@ -1,2 +1,8 @@
 NOT_CLAIMED = {}
-CLAIMED = {}
+CLAIMED = {
+ "C01": dict(
+  technique="bounded-exhaustive enumeration of version strings (token grammar + all strings <= L over the lexical alphabet) x all ordered pairs on the real Compare; all N^3 triples decided by the O(N^2) rank criterion",
+  text="Every accepted string of a stated finite universe per ecosystem is compared with every other (both argument orders) on the real code; sign range, reflexivity, antisymmetry are checked per pair and transitivity for all triples via the rank criterion, so within the universe the verdict is complete, not sampled.",
+  note="Bound: universe = grammar to the written repetition bounds + all strings of length <= L; strings outside it are not covered. alpm triples mixing pkgrel presence excluded as the property states. Known genuine defects are attributed by per-operand class predicates (known_findings.json); the complement sub-universe must pass the full criterion.",
+  ref="DESIGN.md 3.3, 4 (C01)"),
+}
